@@ -12,7 +12,21 @@ CLAIMED = {
    technique="Coq proof (simulation invariant, induction over label sequences) + lockstep model/implementation correspondence",
    design="6 C20, 3, 8"),
 }
-NOT_YET = "not claimed in this revision: model/proof for this property is not built yet (see DESIGN.md 11 staging)"
+TB_CTRL = ("Trusted: Coq 8.16.1 kernel; extraction (ExtrOcamlBasic + ExtrOcamlString, no Extract Constant); OCaml driver; "
+           "lib/gensurface.py (introspection of the pool classes; PoolSurface.v regenerated from /repo on every run); "
+           "harness/ctrlrun.py (real ControlSession over in-memory streams, help-text parsing, twin pool). argparse is "
+           "modelled only for the canonical command grammar and its agreement with the model is checked on generated "
+           "lines, not proved. All theorems closed under the global context (no axioms).")
+CLAIMED["C16"] = dict(
+   text="Theorems C16_names / C16_private_hidden / C16_constructible (Coq, for every class surface, unbounded): the command table built from a class consists of exactly its public functions and properties, named with dashes, in order; non-public members are never exposed; and for every well-formed surface (any subclass adding public members) the parser construction cannot fail - no two option strings of a command coincide, none collides with -h/--help, every annotation is classified. C16_taskpool / C16_simplepool instantiate this on the surfaces of the real classes, regenerated from /repo by introspection on every run (so a changed signature or annotation re-opens the obligation). Correspondence: real handshakes (both classes, two subclasses, seven terminal widths) - reply = pool name, the set of commands and every command's arguments as shown by '<command> -h' equal the model's table.",
+   note=TB_CTRL, technique="Coq proof over a regenerated model of the class surface (translator: introspection -> PoolSurface.v) + model/implementation correspondence on real sessions", design="6 C16, 7")
+CLAIMED["C17"] = dict(
+   text="Theorem C17_roundtrip (Coq, for every class surface, command and call, unbounded): rendering a call as a canonical command line and parsing it with the model of the parser yields exactly the expected namespace, and the session's dispatch turns it into the call with positional-or-keyword parameters in signature order, var-positionals unpacked, keyword-only by keyword; C17_given_value / C17_omitted_default: every given option holds its value, every omitted one the method's own default; C17_real_tables: the real classes' tables (regenerated from /repo each run) satisfy the hypotheses. Conversions of argument text are an oracle (the harness converts independently). Correspondence: generated calls go as text through a real session into pool A while the call predicted by the model is applied directly to a twin pool B; replies, pool observables and worker invocations are compared.",
+   note=TB_CTRL, technique="Coq proof (round trip render/parse/dispatch) over a regenerated surface + twin-pool model/implementation correspondence", design="6 C17, 7")
+CLAIMED["C18"] = dict(
+   text="PARTIAL. Theorems C18_one_reply_per_line / C18_reply_is_own_output / C18_buffer_empty / C18_no_call_on_error (Coq, every line sequence, every parser/pool behaviour within the contract ArgumentError | ParserError | HelpRequested | namespace): the session loop writes exactly one reply per non-blank line, in order; each reply is the output of its own command only (buffer empty when a command starts); lines that do not parse make no pool call. What the theorems cannot carry - that real argparse stays inside that contract for arbitrary text, never prints, never exits - is exercised, not proved: token soup / arbitrary printable lines through one or two real sessions on a real pool, checking one reply per line, replies equal to the session model fed with the parser's outcomes, unchanged pool on error/help lines, empty stdout/stderr, session still alive, and history-independence of error/help replies. Commands whose method waits (until-closed) are not sent by the fuzzer.",
+   note=TB_CTRL, technique="Coq proof of the session state machine (parser and pool as oracles) + fuzzing correspondence against real sessions (the latter is a test, not a proof)", design="6 C18, 7")
+NOT_YET = "not claimed in this revision: the check for this property is not registered yet (see DESIGN.md 11 staging)"
 
 checks = []
 for i in ids:
